@@ -741,8 +741,9 @@ def scripted_spec(case, d):
     alog, out = os.path.join(d, "adapter.log"), os.path.join(d, "out")
     study = []
     for st in case["steps"]:
+        uses = "".join(" %s=$(%s)" % (k, k) for k in st.get("use", []))
         if st["scheduled"]:
-            run = {"cmd": "echo scheduled-%s\n" % st["name"], "procs": 1}
+            run = {"cmd": "echo scheduled-%s%s\n" % (st["name"], uses), "procs": 1}
         else:
             lines = []
             if st.get("cancel"):
@@ -758,8 +759,11 @@ def scripted_spec(case, d):
         study.append({"name": st["name"], "description": "step %s" % st["name"], "run": run})
     spec = {"description": {"name": STUDY, "description": "generated study for the scripted scheduler"},
             "batch": {"type": "scripted", "host": "h", "bank": "b", "queue": "q"}, "study": study}
-    script = {"log": alog, "submit": {s["name"]: s["submit"] for s in case["steps"] if s["scheduled"]},
-              "reports": {s["name"]: s["reports"] for s in case["steps"] if s["scheduled"]},
+    if case.get("params"):
+        spec["global.parameters"] = {p["key"]: {"values": list(p["values"]), "label": "%s.%%%%" % p["key"]}
+                                     for p in case["params"]}
+    script = {"log": alog, "submit_by_prefix": {s["name"]: s["submit"] for s in case["steps"] if s["scheduled"]},
+              "reports_by_prefix": {s["name"]: s["reports"] for s in case["steps"] if s["scheduled"]},
               "qcodes": case["qcodes"]}
     return yaml.safe_dump(spec, default_flow_style=False, sort_keys=False), script
 
@@ -814,9 +818,16 @@ def translate_scripted(case, d, res):
         return None, ["no snapshot at all (rc=%s): %s" % (res["rc"], res.get("tail", "")[-400:])]
     inst = graphs[0]
     ix = {nd["name"]: i for i, nd in enumerate(inst)}
-    by = {s["name"]: s for s in case["steps"]}
-    nodes = [{"parents": nd["parents"], "children": nd["children"], "scheduled": by[nd["name"]]["scheduled"],
-              "has_restart": nd["has_restart"], "rlimit": nd["rlimit"]} for nd in inst]
+    def template(name):
+        c = [s for s in case["steps"] if name == s["name"] or name.startswith(s["name"] + "_")]
+        return max(c, key=lambda s: len(s["name"])) if c else None
+    if any(template(nd["name"]) is None for nd in inst):
+        return None, ["an instance belongs to no step of the specification: %r" % [nd["name"] for nd in inst]]
+    # the configuration is what the COMMAND LINE said (-t / -a / -r), not what the engine ended up with:
+    # rlimit = R for a step with a restart command, else 0
+    nodes = [{"parents": nd["parents"], "children": nd["children"], "scheduled": template(nd["name"])["scheduled"],
+              "has_restart": bool(template(nd["name"])["restart"]),
+              "rlimit": case["rlimit"] if template(nd["name"])["restart"] else 0} for nd in inst]
     jobno, nxt = {}, 0
     polls, cur = [], None
     pending_cancel = None
@@ -889,7 +900,7 @@ def translate_scripted(case, d, res):
 cur_job_node = {}
 
 
-def evaluate_scripted(ck, tag, items, pidnum=5):
+def evaluate_scripted(ck, tag, items, pidnum=5, clause=None):
     """Scheduled-step studies through the command line with the scripted
     adapter; inside Coq: ExecCases.both_ok pidnum (full trace correspondence +
     monitor family on implementation and model)."""
@@ -906,6 +917,10 @@ def evaluate_scripted(ck, tag, items, pidnum=5):
                "attempts_run": sum(1 for p in (ecase["polls"] if ecase else []) for e in p["events"] if e[0] == "submit"),
                "impl": None if ecase is None else ecase["polls"]}
         summ.append(rec)
+        if clause is not None and ecase is not None and not prob:
+            rec["violations"] = clause(it["case"], ecase)
+            for v in rec["violations"][:1]:
+                ck.violation("%s [%s]: %s" % (tag, it["mode"], v), slim(rec))
         if prob:
             ck.mismatch("%s [%s]: %s" % (tag, it["mode"], prob[0]), slim(rec), res.get("tail", ""))
         elif ecase is not None and H.representable(ecase):
@@ -919,6 +934,8 @@ def evaluate_scripted(ck, tag, items, pidnum=5):
         sub = [lits[i] for i in bad]
         b_impl, _ = common.coq_failing(tag + "_i", H.HEADER, "ecase", "impl_ok %d" % pidnum, sub)
         for k, i in enumerate(bad):
+            if recs[i]["violations"]:
+                continue
             if k in b_impl:
                 codes = common.coq_eval(tag + "_e", H.HEADER, "impl_viol (%s)" % lits[i])
                 ck.violation("%s [%s]: monitor codes on the implementation's trace (exit code as final status): %s"
@@ -927,4 +944,123 @@ def evaluate_scripted(ck, tag, items, pidnum=5):
                 mo = common.coq_eval(tag + "_e", H.HEADER, "model_obs (%s)" % lits[i])
                 ck.mismatch("%s [%s]: model and implementation observations differ" % (tag, recs[i]["mode"]),
                             slim(recs[i]), mo[-3000:])
+    return summ
+
+
+# ----------------------------------------------------------------------------
+# C03 / C06: do the settings given on the command line reach the engine?
+# ----------------------------------------------------------------------------
+def gen_config_study(rng, focus):
+    """Few step templates, one parameter with N distinct values (N instances of a
+    template ready at once), every step SCHEDULED; flags -t T / -a A / -r R."""
+    ntempl = rng.choice([1, 2, 2, 3])
+    nvals = rng.randint(3, 8) if focus == "throttle" else rng.randint(1, 4)
+    names = rng.sample(["gen", "sim", "post-1", "s2"], ntempl)
+    values = rng.sample([1, 2, 3, 5, 8, 13, 21, 34, "lo", "hi"], nvals)
+    steps = []
+    for i, nm in enumerate(names):
+        deps = []
+        if i > 0 and rng.random() < 0.6:
+            deps = [names[i - 1] + ("_*" if rng.random() < 0.25 else "")]
+        st = {"name": nm, "deps": deps, "use": ["P"], "scheduled": True, "cancel": False,
+              "restart": False, "submit": [rng.random() < 0.9 for _ in range(4)]}
+        steps.append(st)
+    if focus == "throttle":
+        ninst = nvals                                   # instances of one template, ready together
+        # T in 0..N+1, mostly in the band  #templates <= T < #instances
+        band = [t for t in range(ntempl, ninst)] or [1]
+        T = rng.choice(band) if rng.random() < 0.65 else rng.randint(0, ninst + 1)
+        R = rng.choice([0, 1, 2, 3])
+        for st in steps:
+            st["reports"] = [rng.choice(["RUNNING", "RUNNING", "PENDING"]) for _ in range(rng.randint(1, 3))] + ["FINISHED"]
+            st["restart"] = rng.random() < 0.2
+    else:
+        R = rng.choice([0, 0, 1, 2, 3])
+        T = rng.choice([0, 0, 2, nvals + 1])
+        nto = R + 2 if R > 0 else rng.choice([3, 4, 5])    # consecutive TIMEDOUT reports per instance
+        for st in steps:
+            st["restart"] = rng.random() < 0.8
+            k = nto if rng.random() < 0.7 else rng.randint(1, nto)
+            seq = []
+            for _ in range(k):
+                seq += [rng.choice(["RUNNING", None])] * rng.randint(0, 1) + ["TIMEDOUT"]
+            st["reports"] = seq + ["FINISHED"]
+        if not any(s["restart"] for s in steps):
+            steps[0]["restart"] = True
+    return {"kind": "scripted", "focus": focus, "shape": "templates:%d" % ntempl, "scenario": "config-" + focus,
+            "steps": steps, "params": [{"key": "P", "values": values}], "attempts": rng.choice([1, 2, 3]),
+            "throttle": T, "rlimit": R, "qcodes": ["OK"], "cancel": "no"}
+
+
+def config_cases(rng, n, focus):
+    """focus 'throttle' (C03) or 'restart' (C06) -> items for check_config"""
+    return [{"case": gen_config_study(rng, focus), "mode": "fg"} for _ in range(n)]
+
+
+def config_clause(case, ecase):
+    """On the implementation's own adapter-call log, against the COMMAND-LINE flags:
+    never more than -t live jobs; a TIMEDOUT report to a step with a restart command is
+    answered by a restart submission iff -r is 0 (unlimited) or fewer than -r restarts
+    were made so far."""
+    viol = []
+    T, R = case["throttle"], case["rlimit"]
+    g = ecase["nodes"]
+    live, nrestart = {}, Counter()
+    for k, p in enumerate(ecase["polls"]):
+        if p["q"] == "OK":
+            for x, v in p["reports"]:
+                if v in ("FINISHED", "FAILED", "TIMEDOUT", "HWFAILURE", "CANCELLED", "UNKNOWN"):
+                    live.pop(x, None)
+        rsub = set()
+        for e in p["events"]:
+            if e[0] == "submit":
+                if e[2] == "Restart":
+                    rsub.add(e[1])
+                if e[3] and e[4] is not None:
+                    live[e[1]] = e[4]
+                    if T > 0 and len(live) > T:
+                        viol.append("poll %d: %d jobs in flight with -t %d" % (k, len(live), T))
+        if p["q"] == "OK" and not any(q["cancel"] for q in ecase["polls"][:k + 1]):
+            for x, v in p["reports"]:
+                if v == "TIMEDOUT" and g[x]["has_restart"]:
+                    want = R == 0 or nrestart[x] < R
+                    if want and x not in rsub:
+                        viol.append("poll %d: instance %d timed out after %d restart(s) with -r %d%s but was not restarted"
+                                    % (k, x, nrestart[x], R, " (unlimited)" if R == 0 else ""))
+                    if not want and x in rsub:
+                        viol.append("poll %d: instance %d restarted although %d restart(s) were already made with -r %d"
+                                    % (k, x, nrestart[x], R))
+        for x in rsub:
+            nrestart[x] += 1
+    return viol
+
+
+def check_config(ck, items, pidnum):
+    """Runs the items through `maestro run -fg -y -t T -a A -r R` with the scripted
+    scheduler; inside Coq `both_ok pidnum` with cfg from the command-line values;
+    reports to ck; fills ck.cov['e2e_config']."""
+    tag = "C%02d_cfg" % pidnum
+    work = os.path.join(common.WORK, tag + "_runs")
+    shutil.rmtree(work, ignore_errors=True)
+    for i, it in enumerate(items):
+        it["dir"] = os.path.join(work, "c%d" % i)
+    summ = evaluate_scripted(ck, tag, items, pidnum=pidnum, clause=config_clause)
+    shutil.rmtree(work, ignore_errors=True)
+    dist = Counter()
+    for r in summ:
+        c = r["case"]
+        ninst = len(c["params"][0]["values"])
+        dist["flags:-t %d" % c["throttle"]] += 1
+        dist["flags:-r %d" % c["rlimit"]] += 1
+        dist["flags:-a %d" % c["attempts"]] += 1
+        dist["templates:%d" % len(c["steps"])] += 1
+        dist["values:%d" % ninst] += 1
+        if len(c["steps"]) <= c["throttle"] < ninst:
+            dist["throttle>=templates,<instances"] += 1
+        dist["polls:%02d" % min(r["polls"], 40)] += 1
+        dist["restart_submits"] += sum(1 for p in (r["impl"] or []) for e in p["events"] if e[0] == "submit" and e[2] == "Restart")
+        dist["exit:%s" % r["rc"]] += 1
+        ck.count("cfg:" + json.dumps([c["steps"], c["params"], c["throttle"], c["attempts"], c["rlimit"]], sort_keys=True, default=str),
+                 nontrivial=r["attempts_run"] >= 2)
+    ck.cov["e2e_config"] = dict(sorted(dist.items()))
     return summ
